@@ -19,8 +19,10 @@ CLAIMED = {
          "The Gallina model of ops.py / self_add / self_mul / gram is tied to the implementation by exact-integer correspondence (result kind, orders, "
          "None-ness, dense value) over all 49 pairs x {+,-,*,@}, unary -, scalar *, gram and result trees, plus a numpy oracle on dense renderings.",
     note="Trusted: Coq kernel, hand-written model Model/QSMOps.v tied by correspondence, harness, JAX. qsm_mul exists in two Gallina forms (branch by "
-         "branch like the Python, and a uniform form in which a missing part is a part of order 0); the theorems are about the uniform form, and both "
-         "forms are compared with the implementation on every case. Rounding is outside the theorems. All expression trees: Theory/QSMExpr.v gives a syntax of expressions over the operations and proves by induction that a returned matrix is well formed and denotes the same expression on the dense matrices (expression_trees_sound), and that evaluation is total when every leaf carries a diagonal (expression_trees_total).",
+         "branch like the Python, and a uniform form in which a missing part is a part of order 0); the general theorems are about the uniform form, and both "
+         "forms are compared with the implementation on every case; for the 13 kind pairs with a diagonal operand (the row diagonal @ any kind and the column any kind @ diagonal, "
+         "incl. the diag x diag special case) the literal form itself is proved exact and equal to the uniform form (Theory/QSMMulDiag.v: matmul_diag_any_literal, matmul_any_diag_literal, _agrees), "
+         "under the hypothesis that the first row of the p table of a part whose order is read off it has the declared order. Rounding is outside the theorems. All expression trees: Theory/QSMExpr.v gives a syntax of expressions over the operations and proves by induction that a returned matrix is well formed and denotes the same expression on the dense matrices (expression_trees_sound), and that evaluation is total when every leaf carries a diagonal (expression_trees_total).",
     technique="Coq proof (block-triangular transition products, phi/psi scan invariants, Kronecker index map) + exact model/implementation correspondence over all kind pairs",
     ref="DESIGN.md section 6, C05"),
  "C06": dict(
